@@ -56,6 +56,7 @@ def plan_C02(b, tier, seed):
         t += [A_field(b, c, "unary") for c in ("f7_2", "f13_2", "f7_3", "f5_4")]
         t += [A_field(b, c, "arith", workers=6) for c in ("f7_6", "f7_6b", "f7_12")]
         t += [A_field(b, c, "conv") for c in ("f7_2", "f7_3", "f5_4", "f7_6", "f7_6b", "f7_12")]
+        t += [A_field(b, c, "tower", workers=6) for c in ("f7_2", "f13_2", "f7_3", "f5_4", "f7_6", "f7_6b", "f13_6b", "f7_12")]
         t += [B_field(b, "bls12_381_fq2", seed, 1500), B_field(b, "bls12_381_fq6", seed, 600),
               B_field(b, "bls12_381_fq12", seed, 250), B_field(b, "mnt6_753_fq3", seed, 800),
               B_field(b, "c_bls12_377_fq12", seed, 200), B_field(b, "c_bn254_fq12", seed, 200), B_field(b, "c_mnt4_298_fq4", seed, 500),
@@ -65,6 +66,7 @@ def plan_C02(b, tier, seed):
             t += [A_field(b, c, "arith", workers=6), A_field(b, c, "unary"), A_field(b, c, "conv")]
         for c in ("f7_3", "f5_4"):
             t += [A_field(b, c, "arith", workers=8), A_field(b, c, "unary"), A_field(b, c, "conv")]
+        t += [A_field(b, c, "tower", workers=8) for c in ("f3_2", "f7_2", "f11_2", "f5_2", "f13_2", "f17_2", "f19_2", "f7_3", "f13_3", "f19_3", "f5_4", "f13_4", "f7_6", "f13_6", "f7_6b", "f13_6b", "f7_12", "f13_12")]
         for c in ("f13_3", "f19_3", "f13_4", "f7_6", "f13_6", "f7_6b", "f13_6b", "f7_12", "f13_12"):
             t += [A_field(b, c, "arith", workers=8), A_field(b, c, "unary", workers=8), A_field(b, c, "conv")]
         for s in (seed, seed + 1):
@@ -332,7 +334,7 @@ RULES = {
  "C12": "A: all points of toy curves with cofactor 1,2,3,4,6,8 (so mostly outside the subgroup): subgroup test vs r.P = O, clear_cofactor vs h.P, mul_by_cofactor, mul_by_cofactor_inv on the subgroup. B: shipped curves with points from arbitrary coordinates; clear_cofactor vs the standardised effective cofactor (BLS12-381 G1: 1-x, G2: h2(3x^2-3)), endomorphism-based subgroup tests vs the definition",
  "C15": "A: BigIntMachine over the limb-boundary alphabet (NL<=2: all limb combinations from {0,1,2,2^31,2^63-1,2^63,2^64-2,2^64-1}; larger NL: one special limb, others 0 or all-ones): all ordered pairs x binary operations, every value x unary operations / shifts {0,1,63,64,65,127,128,64N-1,64N,64N+1,64N+64} / conversions / w-NAF for w in {0,1,2,3,4,5,8,16,20,64}; every transition replayed on ark_ff::BigInt<N> through every API variant. B: seeded boundary-biased programs for N in {1,2,3,4,6,12,13} validated by TLC (relaxed NAF as a relation). non-trivial = register changed or a non-zero/true flag or value returned",
  "C01": "A: every transition of FieldMachine over the listed toy prime fields (all operand tuples x all actions; both the derive-macro and the hand-written trait-default configuration) replayed through every API variant; B: seeded random+boundary programs on shipped fields and the moduli zoo validated by TLC over BigNat. non-trivial = result differs from the operands and from 0/1, counted per distinct (operands, event)",
- "C02": "A: every transition of FieldMachine over toy towers (all elements, or the <=2-nonzero-coordinate sub-alphabet for towers with >3000 elements); B: seeded programs on the shipped BLS12-381 Fq2/Fq6/Fq12 and MNT6 Fq3 validated against schoolbook tower arithmetic over BigNat; Frobenius checked against x^(p^k)",
+ "C02": "A: every transition of FieldMachine over toy towers (all elements, or the <=2-nonzero-coordinate sub-alphabet for towers with >3000 elements); B: seeded programs on the shipped BLS12-381 Fq2/Fq6/Fq12 and MNT6 Fq3 validated against schoolbook tower arithmetic over BigNat; Frobenius checked against x^(p^k); tower-specific operations (mode tower / trace events): norm, conjugation, multiplication by elements of every subfield level through every method the type offers (mul_by_fp, mul_by_fp2, mul_assign_by_fp2, mul_assign_by_basefield ...), the sparse multiplications mul_by_01 / mul_by_1 / mul_by_014 / mul_by_034 of both degree-6 towers and Fp12 against the product with the sparse element, and cyclotomic square / inverse / exponentiation on EVERY element of the cyclotomic subgroup of the small towers (projected elements for the large ones; exponents incl. 2^64-1, 2^64)",
 }
 
 def _glv_outside(mm, params):
